@@ -1467,9 +1467,17 @@ def _rehoist(fn, rf, log, q):
             dnode = ast.parse(ds[0], mode='eval').body
         except SyntaxError:
             continue
-        if not _pure_lookup(dnode) or isinstance(dnode, ast.Name):
+        if isinstance(dnode, (ast.Name, ast.Constant)):
             continue
         dtext = ds[0]
+        pure = _pure_lookup(dnode)
+        if not pure:
+            # an arbitrary expression is re-introduced only where it occurs
+            # exactly once (a temporary that was inlined)
+            occ = sum(1 for x in _own_nodes(fn) if isinstance(x, ast.expr)
+                      and _n(x) == dtext)
+            if occ != 1 or len(dtext) < 8:
+                continue
         # the shallowest block whose statements contain every occurrence
         best = None
         for blk in _blocks(fn):
